@@ -292,6 +292,17 @@ def render(docs, c):
         node["extra_members"] = [("name", json.dumps("x")), ("comment", "[1, 2]")]
     elif op == "keys-reordered":
         node["reorder"] = True
+    elif op == "key-case-variants-value":
+        node["no_value"] = True
+        node["extra_members"] = [("Value", json_value(node)), ("VALUE", '"other"'), ("vALUE", "7")]
+    elif op == "key-case-variants-tag":
+        node["jtag"] = None
+        node["extra_members"] = [("Tag", json.dumps(node["n"])), ("TAG", json.dumps("Comment")), ("tAG", json.dumps("BatchCount"))]
+    elif op == "key-case-variants-type":
+        node["jtype"] = None
+        node["extra_members"] = [("Type", json.dumps(node["t"])), ("TYPE", json.dumps("TextString")), ("tYPE", json.dumps("Integer"))]
+    elif op == "keys-uppercase":
+        post = lambda s: s.replace('"tag":', '"TAG":').replace('"type":', '"TYPE":').replace('"value":', '"VALUE":')
     # ---- XML tokens
     elif op == "attr-dup":
         node["extra_attrs"] = [("type", "Integer")] if leaf else [("tag", "0x420001"), ("tag", "0x420002")]
@@ -443,8 +454,9 @@ def judge_c02(ctx, rows):
                               "%s decoder, %s target, %s: %s; document: %s" % (c["enc"].upper(), label, where, o["Detail"][:200], s["doc"][:300]), {"case": c, "doc": s["doc"][:20000], "result": x})
         if not x["unchanged"]:
             ctx.violation("c02:text:%s:input-mutated" % c["enc"], "%s: the input buffer was modified" % where, {"case": c, "doc": s["doc"][:20000]})
-        if x["first"]["Outcome"] != x["second"]["Outcome"] or x["first"].get("Bin") != x["second"].get("Bin"):
-            ctx.violation("c02:text:%s:second-decode-differs" % c["enc"], "%s: decoding the same bytes again gives another result: %s vs %s" % (where, x["first"], x["second"]), {"case": c, "doc": s["doc"][:20000]})
+        if x["first"]["Outcome"] != x["second"]["Outcome"] or x["first"].get("Bin") != x["second"].get("Bin") or x.get("again_differs"):
+            ctx.violation("c02:text:%s:second-decode-differs" % c["enc"], "%s: decoding the same bytes again gives another result: %s vs %s (%s of 6 further decodes differ from the first)" % (
+                where, x["first"], x["second"], x.get("again_differs")), {"case": c, "doc": s["doc"][:20000]})
         h = x.get("http")
         if h and "panic" in h:
             ctx.violation("c02:http:%s:panic:%s" % (c["enc"], h["panic"].split(":")[0][:60]), "HTTP handler, %s: ServeHTTP panics: %s" % (where, h["panic"][:200]), {"case": c, "doc": s["doc"][:20000]})
